@@ -946,6 +946,19 @@ func parseFloatGen(fn string) func(r *Rng, tier string, emit func(Case)) {
 			emit(bytesCase(fn, []byte(s)))
 			emit(bytesCase(fn, []byte("-"+s)))
 		}
+		// mantissas at the uint64 truncation boundary (MaxUint64/10 = 1844674407370955161), every next digit, dot at every place
+		for _, m := range []string{"1844674407370955161", "1844674407370955160", "1844674407370955162", "922337203685477580", "900719925474099", "1000000000000000", "999999999999999"} {
+			for d := 0; d <= 9; d++ {
+				full := m + gostrconv.Itoa(d)
+				for _, suf := range []string{"", "7", "e3", "e-3", "e22", "e-22", "e23", "00e-5"} {
+					emit(bytesCase(fn, []byte(full+suf)))
+				}
+				for k := 0; k <= len(full); k += 3 {
+					emit(bytesCase(fn, []byte(full[:k]+"."+full[k:])))
+					emit(bytesCase(fn, []byte("-"+full[:k]+"."+full[k:]+"5e10")))
+				}
+			}
+		}
 		for _, z := range []int{300, 307, 308, 309, 322, 323, 324, 325, 400} {
 			zs := string(bytes.Repeat([]byte{'0'}, z))
 			emit(bytesCase(fn, []byte("0."+zs+"1")))
